@@ -317,7 +317,9 @@ PROPS["C13"] = {
              "clauses must hold once the watcher has caught up (polled for at most 10 s after each step); a directory may also leave by "
              "being renamed away (both units). during unit: the harness-owned schedule of C11 / C20 (the scan of NewCache / Configure / the first "
              "query after a directory appeared is held at a named pipe while a file is created, rewritten with valid or unparsable content, or "
-             "removed) - the error report, too, must converge to that of a fresh cache. One case = one step. Non-trivial iff a fault sits at a lower index than some good directory, or the "
+             "removed) - the error report, too, must converge to that of a fresh cache. vanish unit: a Spec file vanishes between the listing of its "
+             "directory and its turn in the scan (a validator hook removes it while an earlier file of the same scan is loaded): every other "
+             "file, also those sorting after it, must resolve in that refresh and the next. One case = one step. Non-trivial iff a fault sits at a lower index than some good directory, or the "
              "step is a repair; distinct = distinct (layout state, fault set)."),
     "assumptions": ["files inside a directory that cannot be listed or stat-ed, and inside a symlinked directory, are not required to be reported (the library cannot see them)",
                     "permission faults need root with setuid to 65534, or a non-root caller; probed at start, skipped and labelled otherwise"],
@@ -340,6 +342,7 @@ PROPS["C13"] = {
         {"name": "rapid", "mode": "rapid", "run": "TestC13Rapid", "checks": {"quick": 6400, "thorough": 128000}},
         {"name": "auto", "mode": "rapid", "run": "TestC13Auto", "shards": 8, "checks": {"quick": 800, "thorough": 16000}},
         {"name": "during", "mode": "rapid", "run": "TestC13During", "shards": 4, "checks": {"quick": 240, "thorough": 6000}},
+        {"name": "vanish", "mode": "rapid", "run": "TestC13Vanish", "shards": 2, "checks": {"quick": 2000, "thorough": 40000}},
         {"name": "perm", "mode": "rapid", "run": "TestC13Perm", "checks": {"quick": 1600, "thorough": 32000}},
         {"name": "readfaults", "mode": "rapid", "run": "TestC13ReadFaults", "checks": {"quick": 160, "thorough": 3200}},
     ],
